@@ -38,11 +38,24 @@ class CheckError(Exception):
     """Infrastructure failure (not a property verdict)."""
 
 
+RSS_LIMIT_MB = int(os.environ.get('VERIF_RSS_LIMIT_MB', '6144'))
+
+
+def _limit_env(env):
+    """environment of a child process: every sanitizer-instrumented harness gets a hard RSS limit, so that a change under test that
+    makes the implementation allocate without bound ends in a sanitizer report (a finding with a replay) instead of exhausting the machine"""
+    e = dict(os.environ)
+    if env: e.update(env)
+    a = e.get('ASAN_OPTIONS', '')
+    if 'hard_rss_limit_mb' not in a:
+        e['ASAN_OPTIONS'] = (a + ':' if a else '') + 'hard_rss_limit_mb=%d' % RSS_LIMIT_MB
+    return e
+
+
 def sh(cmd, timeout=600, cwd=None, env=None, input=None, check=False):
     """Run a command (list or shell string). Returns (rc, stdout+stderr)."""
     shell = isinstance(cmd, str)
-    e = dict(os.environ)
-    if env: e.update(env)
+    e = _limit_env(env)
     try:
         r = subprocess.run(cmd, shell=shell, cwd=cwd, env=e, input=input, timeout=timeout,
                            stdout=subprocess.PIPE, stderr=subprocess.STDOUT, text=True, errors='replace')
@@ -58,8 +71,7 @@ def sh(cmd, timeout=600, cwd=None, env=None, input=None, check=False):
 def sh2(cmd, timeout=600, cwd=None, env=None, input=None):
     """Like sh but stdout and stderr separate: (rc, stdout, stderr)."""
     shell = isinstance(cmd, str)
-    e = dict(os.environ)
-    if env: e.update(env)
+    e = _limit_env(env)
     try:
         r = subprocess.run(cmd, shell=shell, cwd=cwd, env=e, input=input, timeout=timeout,
                            stdout=subprocess.PIPE, stderr=subprocess.PIPE, text=True, errors='replace')
@@ -223,7 +235,8 @@ class Ctx:
         try:
             cmd = 'timeout %d make -k -j16 %s' % (timeout, ' '.join(targets))
             self.checker_cmds.append('cd coq && ' + cmd)
-            rc, out = sh(cmd, cwd=COQ, timeout=timeout + 30)
+            # every coqc is capped at 12 GB of address space: a proof that blows up fails (broken obligation) instead of exhausting the machine
+            rc, out = sh('ulimit -v 12000000; ' + cmd, cwd=COQ, timeout=timeout + 30)
         finally:
             fcntl.flock(lock, fcntl.LOCK_UN); lock.close()
         return rc == 0, out
